@@ -526,3 +526,99 @@ func CountOnPaths(fn *ssa.Function, from ssa.Instruction, pred Pred) (min, max i
 	}
 	return min, max
 }
+
+// CountOnPathsTo is CountOnPaths restricted to paths that end in a return
+// satisfying goal.
+func CountOnPathsTo(fn *ssa.Function, from ssa.Instruction, pred Pred, goal func(*ssa.Return) bool) (min, max int) {
+	// blocks from which a goal return is reachable
+	can := map[*ssa.BasicBlock]bool{}
+	changed := true
+	for changed {
+		changed = false
+		for _, b := range fn.Blocks {
+			if can[b] {
+				continue
+			}
+			if r, ok := b.Instrs[len(b.Instrs)-1].(*ssa.Return); ok && b.Comment != "recover" && goal(r) {
+				can[b] = true
+				changed = true
+				continue
+			}
+			for _, s := range b.Succs {
+				if can[s] {
+					can[b] = true
+					changed = true
+					break
+				}
+			}
+		}
+	}
+	const inf = 3
+	type mm struct{ lo, hi int }
+	in := map[*ssa.BasicBlock]mm{}
+	startB := fn.Blocks[0]
+	startI := 0
+	if from != nil {
+		startB = from.Block()
+		startI = Idx(from) + 1
+	}
+	sat := func(x int) int {
+		if x > 2 {
+			return 2
+		}
+		return x
+	}
+	min, max = inf, -1
+	type item struct {
+		b  *ssa.BasicBlock
+		i0 int
+		s  mm
+	}
+	if !can[startB] {
+		return 0, 0
+	}
+	work := []item{{startB, startI, mm{0, 0}}}
+	for steps := 0; len(work) > 0 && steps < 100000; steps++ {
+		it := work[0]
+		work = work[1:]
+		c := 0
+		for i := it.i0; i < len(it.b.Instrs); i++ {
+			if pred(it.b.Instrs[i]) {
+				c++
+			}
+		}
+		out := mm{sat(it.s.lo + c), sat(it.s.hi + c)}
+		if r, ok := it.b.Instrs[len(it.b.Instrs)-1].(*ssa.Return); ok && it.b.Comment != "recover" && goal(r) {
+			if out.lo < min {
+				min = out.lo
+			}
+			if out.hi > max {
+				max = out.hi
+			}
+		}
+		for _, s := range it.b.Succs {
+			if !can[s] {
+				continue
+			}
+			old, seen := in[s]
+			nw := out
+			if seen {
+				if old.lo < nw.lo {
+					nw.lo = old.lo
+				}
+				if old.hi > nw.hi {
+					nw.hi = old.hi
+				}
+				if nw == old {
+					continue
+				}
+			}
+			in[s] = nw
+			work = append(work, item{s, 0, nw})
+		}
+	}
+	if max < 0 {
+		return 0, 0
+	}
+	return min, max
+}
